@@ -55,6 +55,13 @@ Proof. induction 1; simpl; auto. Qed.
 Lemma Forall2_in_l {A B} (P : A -> B -> Prop) l l' : Forall2 P l l' -> forall a, In a l -> exists b, In b l' /\ P a b.
 Proof. induction 1; intros a0 []; subst; [eexists; split; [left; reflexivity|assumption]|]. destruct (IHForall2 a0) as (b & ? & ?); auto. exists b; split; [right|]; assumption. Qed.
 
+Lemma Forall2_fun {A B} (f : A -> option B) l xs ys :
+  Forall2 (fun a x => f a = Some x) l xs -> Forall2 (fun a y => f a = Some y) l ys -> xs = ys.
+Proof.
+  intros H1. revert ys. induction H1 as [|a x l xs Hx _ IH]; intros ys H2; inversion H2; subst; auto.
+  f_equal; [congruence|auto].
+Qed.
+
 Section TapeLemmas.
   Context {Op Sh V : Type}.
   Variable F : OpFamily Op Sh V.
